@@ -622,7 +622,6 @@ def block(stmts, env, k, loopk=None):
         if bt and simple: return emit_if(s.test, env, lambda e: block(s.body, e, dead, loopk), lambda e: block(s.orelse + rest, e, k, loopk))
         if ot and simple: return emit_if(s.test, env, lambda e: block(s.body + rest, e, k, loopk), lambda e: block(s.orelse, e, dead, loopk))
         if not rest: return emit_if(s.test, env, lambda e: block(s.body, e, k, loopk), lambda e: block(s.orelse, e, k, loopk))
-        holder = {}
 
         def whole(kk):
             return emit_if(s.test, env, lambda e: block(s.body, e, kk, loopk), lambda e: block(s.orelse, e, kk, loopk))
@@ -662,19 +661,20 @@ def block(stmts, env, k, loopk=None):
         # loop-local names must not be read before they are assigned: they are absent from e0, ex() fails on them
         for v in assigned(s.body):
             if v not in env.v: e0.v.pop(v, None)
-        leak = {}
+        ends = []
 
         def body(kk):
             def kend(e):
-                for nm, val in e.v.items():
-                    if val.ty == "ndim": leak[nm] = val
-                return kk(e)
+                ends.append(e); return kk(e)
             return block(s.body, e0, kend, kend)
         names, tys, (txt,) = join(s, carried, env, [body])
         if names != carried: fail(s, "loop-carried variable not assigned on every path")
         init = [coerce(s, env.v[v], ty) for v, ty in zip(names, tys)]
         e2 = rebind(env, names, tys)
-        e2.v.update(leak)
+        # `ndim = len(pixels)` has no model content; the name stays visible after the loop (Python's rule)
+        # if every way through the body, `continue` included, has assigned it
+        for nm, val in ends[0].v.items():
+            if val.ty == "ndim" and all(nm in e.v and e.v[nm].ty == "ndim" for e in ends): e2.v[nm] = val
         pat = tuple_pat([cn(v) for v in names])
         return binds(ipre) + "bind (A := %s) (py_for %s %s s (fun %s %s s =>\n%s))\n(fun %s s =>\n%s)" % (
             tuple_ty(tys), itv.coq, "(%s)" % ", ".join(init) if len(init) > 1 else (init[0] if init else "tt"),
@@ -977,14 +977,23 @@ def main(repo=None):
     return "\n".join(parts)
 
 
+LAST = {"ok": None, "msg": ""}      # outcome of the last regenerate()
+
+
 def regenerate(out=OUT, repo=None):
     """(re)write the generated file from the current sources; returns the output path.
     A source outside the idiom table yields a file that does not type-check (fail closed)."""
     try:
         txt = main(repo)
+        LAST.update(ok=True, msg="translated")
     except Unsupported as e:
         txt = "(* TRANSLATION FAILED: %s *)\nDefinition translation_failed : False := I.\n" % str(e).replace("*)", "* )")
         sys.stderr.write("translate_user_actions: Unsupported: %s\n" % e)
+        LAST.update(ok=False, msg=str(e))
+    except Exception as e:      # a bug of the translator must not look like a translation
+        txt = "(* TRANSLATION FAILED: %s: %s *)\nDefinition translation_failed : False := I.\n" % (type(e).__name__, str(e).replace("*)", "* )"))
+        sys.stderr.write("translate_user_actions: internal error %s: %s\n" % (type(e).__name__, e))
+        LAST.update(ok=False, msg="%s: %s" % (type(e).__name__, e))
     os.makedirs(os.path.dirname(out), exist_ok=True)
     old = open(out).read() if os.path.exists(out) else None
     strip = lambda t: "\n".join(l for l in t.split("\n") if "sha256=" not in l and not l.startswith("(* GENERATED"))
@@ -998,3 +1007,4 @@ if __name__ == "__main__":
         sys.stdout.write(main())
     else:
         print(regenerate(*(sys.argv[1:2] or [OUT])))
+        sys.exit(0 if LAST["ok"] else 1)
